@@ -1,7 +1,8 @@
 /- model driver for C08: one operation per input line, one canonical line out -/
 import Batchie.Model.DriverLoop
 import Batchie.Model.GibbsIO
+import Batchie.Model.GibbsInterIO
 
 open Batchie
 
-def main : IO Unit := DriverLoop.run [GibbsIO.handle]
+def main : IO Unit := DriverLoop.run [GibbsIO.handle, GibbsInterIO.handle]
